@@ -23,7 +23,10 @@ var (
 	vpCookieArg string
 )
 
+var vpBackendChunk []byte
+
 func vpResetC01() {
+	vpBackendChunk = nil
 	vpDialLog = nil
 	vpDialConns = nil
 	vpCbLog = nil
@@ -34,11 +37,16 @@ func vpResetC01() {
 
 // vpDial stands in for net.DialTimeout: arbitrary success/failure, address logged.
 func vpDial(network, address string, timeout time.Duration) (net.Conn, error) {
+	vpMu.Lock()
+	defer vpMu.Unlock()
 	vpDialLog = append(vpDialLog, address)
 	if vpBool("dialfail" + strconv.Itoa(len(vpDialLog))) {
 		return nil, errors.New("vpDial: connection refused")
 	}
 	c := &vpConn{block: true}
+	if vpBackendChunk != nil {
+		c.reads = [][]byte{vpBackendChunk} // the host sends one chunk and then stays quiet
+	}
 	vpDialConns = append(vpDialConns, c)
 	return c, nil
 }
